@@ -49,6 +49,13 @@ def shape_error(e, le):
     return None
 
 
+def presorted(e, le):
+    """The same expression with the operands of every node put in ascending order (a pure reordering)."""
+    if isinstance(e, le.BaseSymbol):
+        return e
+    return type(e)(*sorted(presorted(a, le) for a in e.args))
+
+
 def check_one(tree, variant, le, L):
     e = build_expr(tree)
     s = e.simplify()
@@ -56,6 +63,10 @@ def check_one(tree, variant, le, L):
     err = shape_error(s, le)
     if err:
         return err
+    # an input whose operands already stand in the order of the result is one more reordering of the same expression
+    pt = str(presorted(build_expr(tree), le).simplify())
+    if pt != text:
+        return 'the input with its operands put in ascending order simplifies to another text: %r vs %r' % (pt, text)
     # idempotence: on the object, on a structurally rebuilt copy, and through the text
     if str(s.simplify()) != text:
         return 'simplify() is not idempotent on its result'
